@@ -140,8 +140,8 @@ def finish(res: Result, tier: str, seed: int, t0: float, extra_cov: dict = None,
         k = known_keys[(res.prop, f.key)]
         print(f"KNOWN-FINDING: property={res.prop} {k.get('what', f.message)} [{f.key}]")
     replays = []
-    if new and code == 0:
-        code = 1
+    if new:
+        code = 1  # a definite violation outranks "another rule could not be decided"
     for f in new:
         h = hashlib.sha1(f.key.encode()).hexdigest()[:12]
         rp = os.path.join(REPLAY_DIR, res.prop, f"{f.rule}-{h}.json")
